@@ -175,7 +175,7 @@ Definition outputs_for (cfg : kcfg) (layer code : N) : option (list N) :=
   end.
 
 Definition first_repeatable (k : kstate) (cur : list N) (outs : list N) : option N :=
-  find (fun kc => mem_n kc cur || mem_n kc (k_unshifted_keys k) || mem_n kc (k_unmodded_keys k)) (rev outs).
+  find (fun kc => mem_n kc cur) (rev outs).
 
 Fixpoint repeat_layers (cfg : kcfg) (k : kstate) (cur : list N) (code : N) (ls : list N) : outcome (option N) :=
   match ls with
@@ -193,7 +193,14 @@ Fixpoint repeat_layers (cfg : kcfg) (k : kstate) (cur : list N) (code : N) (ls :
 
 Definition handle_repeat (cfg : kcfg) (k : kstate) (code : N) : outcome (list os_ev) :=
   if sq_active (k_seq k) && negb (sq_mode (k_seq k) =? 2) then Ok [] else
-  let cur := fst (override_keys (kc_overrides cfg) (keycodes (k_layout k))) in
+  let base := keycodes (k_layout k) in
+  let base := match k_unmodded_keys k with
+              | [] => base
+              | _ => filter (fun x => negb (mem_n x (unmod_mod_keys (k_unmodded_mods k)))) base ++ k_unmodded_keys k end in
+  let base := match k_unshifted_keys k with
+              | [] => base
+              | _ => filter (fun x => negb ((x =? 42) || (x =? 54))) base ++ k_unshifted_keys k end in
+  let cur := fst (override_keys (kc_overrides cfg) base) in
   ls <- trans_order (kc_layout cfg) (k_layout k) ;;
   r <- repeat_layers cfg k cur code ls ;;
   match r with
@@ -206,8 +213,7 @@ Definition handle_repeat (cfg : kcfg) (k : kstate) (code : N) : outcome (list os
              | Some outs => first_repeatable k cur outs | None => None end) with
       | Some kc => Ok (write_repeat cfg kc)
       | None =>
-        if mem_n code cur || mem_n code (k_unshifted_keys k) || mem_n code (k_unmodded_keys k)
-        then Ok (write_repeat cfg code) else Ok []
+        if mem_n code cur then Ok (write_repeat cfg code) else Ok []
       end
     end
   end.
